@@ -1,7 +1,73 @@
-//! C11: not implemented yet.
-use crate::util::Args;
+//! C11: system-level transformations (simplify_expressions, replace_anonymous_inputs_with_zero).
+//! (case ID (op simplify|zero) (sys S) (impl S' | (panic)) (panicloc ".."))
+use crate::dump::*;
+use crate::rng::Rng;
+use crate::sexp::read_cases;
+use crate::sysgen::*;
+use crate::util::*;
+use patronus::expr::*;
+use patronus::system::transform::{replace_anonymous_inputs_with_zero, simplify_expressions};
+use patronus::system::*;
+use std::io::Write;
 
-pub fn run(_args: &Args) {
-    eprintln!("C11: harness module not implemented yet");
-    std::process::exit(2);
+pub fn run(args: &Args) {
+    let mut rng = Rng::new(args.seed);
+    let mut out = std::io::BufWriter::new(std::fs::File::create(&args.out).expect("out file"));
+    let mut stats = Stats::default();
+    let mut distinct = std::collections::HashSet::new();
+    if let Some(path) = args.get("cases-in") {
+        for c in read_cases(path).iter() {
+            let mut ctx = Context::default();
+            let sys = build_sys(&mut ctx, &c.field("sys").map(|f| crate::sexp::Sexp::List(std::iter::once(crate::sexp::Sexp::Atom("sys".into())).chain(f.iter().cloned()).collect())).unwrap());
+            let op = c.field("op").unwrap()[0].atom().to_string();
+            let line = run_case(c.list()[1].atom(), &op, ctx, sys, &mut stats);
+            writeln!(out, "{line}").unwrap();
+        }
+    }
+    for id in 0..args.count {
+        let mut r = rng.fork();
+        let mut ctx = Context::default();
+        let mut cfg = SysCfg::default();
+        cfg.anon_inputs = true;
+        cfg.max_inputs = 4;
+        cfg.max_outputs = 3;
+        cfg.max_depth = 2 + r.below(3) as u32;
+        cfg.widths = if r.chance(1, 2) { vec![1, 2, 3, 4, 8] } else { vec![1, 8, 31, 32, 33, 64, 65] };
+        cfg.div_rem = r.chance(1, 6);
+        let mut sys = gen_sys(&mut ctx, &mut r, &cfg);
+        // sometimes an input is also used as an output expression / a state is also an output
+        if !sys.inputs.is_empty() && r.chance(1, 4) {
+            let i = *r.pick(&sys.inputs);
+            sys.add_output(&mut ctx, "in_as_out".into(), i);
+        }
+        let op = if r.chance(1, 2) { "simplify" } else { "zero" };
+        stats.bump("op", op);
+        let key = format!("{op} {}", dump_sys(&ctx, &sys));
+        distinct.insert(key);
+        let line = run_case(&format!("{id}"), op, ctx, sys, &mut stats);
+        stats.sample(&line, 2);
+        writeln!(out, "{line}").unwrap();
+    }
+    stats.add("distinct_cases", distinct.len() as u64);
+    stats.write(&args.out);
+}
+
+fn run_case(id: &str, op: &str, mut ctx: Context, mut sys: TransitionSystem, stats: &mut Stats) -> String {
+    let before = dump_sys(&ctx, &sys);
+    let res = guarded(|| {
+        if op == "simplify" {
+            simplify_expressions(&mut ctx, &mut sys);
+        } else {
+            replace_anonymous_inputs_with_zero(&mut ctx, &mut sys);
+        }
+    });
+    let (impl_txt, loc) = match res {
+        Ok(()) => (dump_sys(&ctx, &sys), String::new()),
+        Err(_) => {
+            stats.inc("impl_panics");
+            ("(panic)".to_string(), last_panic_loc())
+        }
+    };
+    stats.bump("changed", if impl_txt == before { "no" } else { "yes" });
+    format!("(case {id} (op {op}) {before} (impl {impl_txt}) (panicloc {}))", quote(&loc))
 }
